@@ -44,7 +44,8 @@ SPECS = {
         "funcs": [
             {"py": "LevyTriplet.canonical_drift", "coq": "canonical_drift", "pyargs": [], "args": _T_ARGS, "ret": R,
              "attrs": _T_ATTRS, "calls": _T_CALLS, "on_raise": "(IZR 0)"},
-            {"py": "LevyTriplet.zero_drift", "coq": "zero_drift", "pyargs": [], "args": _T_ARGS, "ret": R, "attrs": _T_ATTRS, "calls": _T_CALLS},
+            {"py": "LevyTriplet.zero_drift", "coq": "zero_drift", "pyargs": [], "args": _T_ARGS, "ret": R, "attrs": _T_ATTRS, "calls": _T_CALLS,
+             "on_raise": "(IZR 0)"},
             {"py": "LevyTriplet.center_drift", "coq": "center_drift", "pyargs": [], "args": _T_ARGS, "ret": R, "attrs": _T_ATTRS, "calls": _T_CALLS},
             {"py": "LevyTriplet.tilde_drift", "coq": "tilde_drift", "pyargs": [], "args": _T_ARGS, "ret": R, "attrs": _T_ATTRS, "calls": _T_CALLS},
         ],
@@ -58,8 +59,9 @@ SPECS = {
             {"py": "HEMParameters.__init__", "coq": "hem_xi", "pyargs": ["sigma", "p", "eta1", "eta2", "intensity"],
              "args": [("p", R), ("eta1", R), ("eta2", R)], "ret": R, "assign_target": "self._xi"},
             {"py": "ExponentialOfHEMModel.__init__", "coq": "hem_process_drift", "pyargs": ["spot", "r", "d", "parameters"],
-             "args": [("r", R), ("d", R), ("sigma", R), ("lam", R), ("xi", R)], "ret": R, "assign_target": "self._process_drift",
-             "attrs": {"parameters.intensity": "lam", "parameters._xi": "xi", "parameters.sigma": "sigma"},
+             "args": [("r", R), ("d", R), ("sigma", R), ("lam", R), ("eta1", R), ("xi", R)], "ret": R, "assign_target": "self._process_drift",
+             "on_raise": "(IZR 0)",   # eta1 <= 1 raises ValueError: modelled as the value 0, the theorem assumes 1 < eta1
+             "attrs": {"parameters.intensity": "lam", "parameters._xi": "xi", "parameters.sigma": "sigma", "parameters.eta1": "eta1"},
              },
             _cum("_HEMCumulant", 1, "hem_cumulant1", _HEM_ARGS, _HEM_P),
             _cum("_HEMCumulant", 2, "hem_cumulant2", [("sigma", R)] + _HEM_ARGS, _HEM_P, drift=False),
